@@ -34,7 +34,7 @@ def str_or_float(arg, choices):
 def list_of_float(arg, length):
     """Used by argparse when the argument should be a list of floats."""
     values = arg.split(",")
-    if values != length:
+    if len(values) != length:
         raise argparse.ArgumentTypeError(
             f"invalid choice (list should contain {length} real numbers)"
         )
